@@ -266,7 +266,14 @@ impl Serialize for SystemTime {
         let before_epoch = bytes[12] == 0_u8;
         let secs = u64::from_le_bytes(secs_bytes);
         let nanos = u32::from_le_bytes(nanos_bytes);
-        let duration = Duration::new(secs, nanos);
+        let duration = Duration::from_secs(secs)
+            .checked_add(Duration::from_nanos(nanos.into()))
+            .ok_or_else(|| {
+                DbError::serialization(
+                    DbErrorType::OutOfBounds,
+                    "SystemTime deserialization error: duration out of range",
+                )
+            })?;
 
         if before_epoch {
             Ok(UNIX_EPOCH.checked_sub(duration).ok_or_else(|| {
